@@ -263,6 +263,14 @@ impl<'w> ChainSim<'w> {
 				StatusKind::Fork => self.probe("fork_block"),
 				_ => {}
 			}
+			if self.world.blocks[id].height + 50 < self.world.blocks[old_head].height {
+				// accepted although it sits more than 50 blocks below the head (only blocks that are
+				// already stored may be refused as "old")
+				self.probe("block_accepted_50_below_head");
+				if expect == StatusKind::Reorg {
+					self.probe("reorg_deeper_than_50");
+				}
+			}
 			let m = &mut self.models[n];
 			m.accepted.insert(id);
 			m.headers.insert(id);
@@ -1066,6 +1074,9 @@ pub struct SchedCfg {
 	pub compact_once_near_tip: bool,
 	/// window (in blocks) within which body deliveries are shuffled; 0 = full permutation
 	pub shuffle_window: usize,
+	/// deliver the trunk's bodies first and the side branches afterwards (a fork that shows up
+	/// when the head is already far ahead of its fork point)
+	pub side_branches_last: bool,
 }
 
 impl SchedCfg {
@@ -1081,6 +1092,7 @@ impl SchedCfg {
 			compact_pct: 0,
 			compact_once_near_tip: false,
 			shuffle_window: *rng.pick(&[0, 0, 4, 8]),
+			side_branches_last: false,
 		}
 	}
 }
@@ -1175,6 +1187,11 @@ pub fn gen_schedule(world: &World, cfg: &SchedCfg, rng: &mut SimRng) -> (Vec<Op>
 					bodies.swap(i - 1, i);
 				}
 			}
+		}
+		if cfg.side_branches_last {
+			let (trunk, side): (Vec<usize>, Vec<usize>) = bodies.iter().partition(|id| world.blocks[**id].branch == 0);
+			bodies = trunk;
+			bodies.extend(side);
 		}
 		for (i, id) in bodies.iter().enumerate() {
 			if i > 0 && *id < bodies[i - 1] {
